@@ -198,7 +198,7 @@ def concretize(ex, model):
             # an opaque record becomes a plain record of the fields the unit looked at (the contract's `call` adapter
             # decides how to turn it into a real object)
             from .concrete import Rec
-            return Rec(**{k: conc(x) for k, x in v.fields.items() if not k.startswith("__")})
+            return Rec(**{k: conc(x) for k, x in v.fields.items() if not (k.startswith("__") and not k.startswith("__isinstance_"))})
         raise NotConcretizable(repr(v))
 
     args = {k: conc(v) for k, v in ex.params.items()}
